@@ -297,4 +297,4 @@ def make_spec(key):
 
 def run(ctx):
     for role in ("server", "client"):
-        ctx.explore(("c13", role, ctx.tier), time_budget=None if ctx.tier == "quick" else 500)
+        ctx.explore(("c13", role, ctx.tier), time_budget=None if ctx.tier == "quick" else 300)
